@@ -118,6 +118,32 @@ func C12(tier common.Tier) int {
 							vo := e1.Observe(fam, v)
 							compareLayout(run, fam.Name, lt.name, histString(h), pkgOf(inU), mix.String(), bo.BySite, vo.BySite, bo.Crash, vo.Crash, vo.Text, "")
 						}
+						// nested @ignore scopes with the same token: a file-level comment in every file plus a stand-alone comment
+						// before the first declaration. Everything is suppressed in the base and must stay so in every layout.
+						if len(h) >= 2 && h[0].Encl != e1.EPkgVarDirect {
+							tok := "// @ignore " + fam.Name
+							ib := &e1.Spec{InU: inU, Mix: mix, Sites: use, FileIgnore: tok}
+							for i, b := range h {
+								nb := e1.Block{Encl: b.Encl, File: 0, ID: i + 1}
+								if i == 0 {
+									nb.Ignore = tok
+								}
+								ib.Blocks = append(ib.Blocks, nb)
+							}
+							ibo := e1.Observe(fam, ib)
+							for _, lt := range layouts(len(h), false) {
+								if lt.perm == nil {
+									continue
+								}
+								v := &e1.Spec{InU: inU, Mix: mix, Sites: use, FileIgnore: tok}
+								for pos := range h {
+									bi := lt.perm[pos]
+									v.Blocks = append(v.Blocks, e1.Block{Encl: h[bi].Encl, File: lt.files[bi], ID: bi + 1, Ignore: ib.Blocks[bi].Ignore})
+								}
+								vo := e1.Observe(fam, v)
+								compareLayout(run, fam.Name, "nested-ignore/"+lt.name, histString(h), pkgOf(inU), mix.String(), ibo.BySite, vo.BySite, ibo.Crash, vo.Crash, vo.Text, "")
+							}
+						}
 						if idx%503 == 1 {
 							run.Sample(map[string]any{"family": fam.Name, "base": e1.SpecJSON(base), "transformations": len(layouts(len(h), pairs))})
 						}
